@@ -466,3 +466,28 @@ Fixpoint prun (st : list Z) (l : list pop) : list ob :=
   | [] => []
   | o :: l' => let '(st', r) := pstep st o in r :: prun st' l'
   end.
+
+(* a script write THROUGH a container element that is a struct held by value
+   (h.S[0].N = v, h.Mp.a.N = v, h.A[0].N = v, h.S2[0].In.N = v, also through a
+   variable holding the element).  The element the script got is a copy that
+   reflect cannot set: otto refuses the write with a Go panic (it escapes Run;
+   a try/catch around the write does catch it: `try { w; 0 } catch (e) { 1 }`
+   gives 1), and the container is untouched.  The property would accept a
+   catchable TypeError (or a write that lands); what is never right is a write
+   that is accepted and lost.  Further cells: 11 A[0].N 12 A[0].M 13 S2[0].In.N 14 S2[0].In.M *)
+Inductive pxop :=
+| PX (o : pop)
+| PWriteElem (try : bool) (cell v : Z).
+
+Definition pxstep (ideal : bool) (st : list Z) (o : pxop) : list Z * ob :=
+  match o with
+  | PX o' => pstep st o'
+  | PWriteElem try _ _ =>
+      (st, if try then o_num 1 else if ideal then o_err 6 else o_err 9)
+  end.
+
+Fixpoint pxrun (ideal : bool) (st : list Z) (l : list pxop) : list ob :=
+  match l with
+  | [] => []
+  | o :: l' => let '(st', r) := pxstep ideal st o in r :: pxrun ideal st' l'
+  end.
